@@ -369,7 +369,9 @@ reg(Spec(
          "of the exact integral of ModelExpr(E)(a), 0 for interval-free a, "
          "== LinearForm{}(E*a) through the library; and for every bilinear "
          "case BilinearForm{E1,E2}(a,b) == LinearForm{}((E1*a)*(E2*b)) "
-         "exactly (Q). The order-pair sweep (drv_arith) computes "
+         "exactly (Q), also for the same expression type on both sides "
+         "holding different state and applied to the very same spline "
+         "object. The order-pair sweep (drv_arith) computes "
          "LinearForm{X<2>} and LinearForm{} for every order 0..8 operand on "
          "small and 65..130-point grids. " + HIGH_RULE +
          "Non-trivial: exact value non-zero.",
@@ -377,7 +379,7 @@ reg(Spec(
               "linear:outsize-parity:even", "linear:vs-apply",
               "bilinear:metamorphic", "forms:linear-X2",
               "forms:linear-identity", "forms:after-write",
-              "forms:sweep:linear-X2",
+              "linear:same-type-different-state", "forms:sweep:linear-X2",
               "forms:sweep:linear-identity"] +
              ["linear:outsize:%d" % i for i in range(1, 9)],
     assumptions=[DYADIC, MODEL],
